@@ -171,3 +171,18 @@ theorem xotifyDocument_spec (f : Forest) (d : FDocument) (hg : Good f)
 
 end Forest
 end XotModel
+
+namespace XotModel
+open HTree
+
+/-- The last root of a store with distinct handles is found under its own handle. -/
+theorem Forest.treeAt_new_root (f : Forest) (t : HTree) (n' : Nat)
+    (hg : Good ({ f with roots := f.roots ++ [t], next := n' } : Forest)) :
+    ({ f with roots := f.roots ++ [t], next := n' } : Forest).treeAt t.handle = some t.erase := by
+  have hR : RootAt ({ f with roots := f.roots ++ [t], next := n' } : Forest) f.roots t [] :=
+    ⟨rfl, hg.nodup⟩
+  unfold Forest.treeAt
+  rw [hR.get?_self]
+  rfl
+
+end XotModel
